@@ -40,7 +40,9 @@ OpPool == {
   MkOp("addne", <<O, <<35, 49>>>>, <<>>, IntV(8)), MkOp("add", <<X, <<120, 32, 121>>>>, <<>>, IntV(5)),
   \* member names made of the pointer escape characters: "~1" (printed "/~01") and "/" (printed "/~1")
   MkOp("add", <<<<126, 49>>>>, <<>>, IntV(9)), MkOp("replace", <<<<126, 49>>>>, <<>>, VArr), MkOp("add", <<<<47>>>>, <<>>, IntV(8)),
-  MkOp("copy", <<<<126, 48, 49>>>>, <<<<126, 49>>>>, Null) }
+  MkOp("copy", <<<<126, 48, 49>>>>, <<<<126, 49>>>>, Null),
+  \* null is a value like any other (not "no value given")
+  MkOp("add", <<X>>, <<>>, Null), MkOp("test", <<X>>, <<>>, Null), MkOp("replace", <<R, N0>>, <<>>, Null), MkOp("addne", <<W>>, <<>>, Null) }
 
 Docs == { Obj(<<R>>, <<Arr(<<IntV(1), IntV(2)>>)>>),
           Obj(<<X, R>>, <<Obj(<<A>>, <<Arr(<<>>)>>), Arr(<<Obj(<<A>>, <<Arr(<<>>)>>)>>)>>),
